@@ -100,6 +100,12 @@ func proposePL(r *gen.Rand, t *ref.VersionTraits, cur *ref.Value, creators []str
 				c.Set("users", u)
 			}
 			user := gen.Pick(r, authUsers)
+			if t.PLCreatorCheck && r.Chance(0.15) {
+				// a creator named with exactly the level creators have anyway ("nothing changes") - named all the same
+				user = gen.Pick(r, creators)
+				u.Set(user, ref.I(gen.Pick(r, []int64{9007199254740991, 9007199254740991, 100, 9223372036854775807})))
+				break
+			}
 			if r.Chance(0.3) {
 				u.Del(user)
 			} else {
